@@ -168,7 +168,7 @@ def gen_clock_case(rng, odd=0.15, fail=0.0):
     cfg = F.base_cfg(rng, odd=odd, duration_ticks=rng.choice([50, 100, 1000]))
     tick = cfg["tick_ns"]
     whole = rng.random() < 0.6
-    script = []
+    script = [["step"]] * rng.choice([0, 0, 0, 1, 2, 4])       # steps of a still empty simulation
     kinds = []
 
     def prog(client):
@@ -229,6 +229,27 @@ def F_sel(rng, h, n, kinds):
     return {"re": "^n(%s)$" % "|".join(str(i) for i in hosts)}
 
 
+def gen_empty_steps():
+    """Step a simulation with NOTHING registered k times (k = 1..5), then register the first host /
+    client, step, register another one, step: Sim::elapsed = steps x tick throughout, late nodes start at
+    the Sim::elapsed of their registration."""
+    out = []
+    for tick in (1 * MS, 2 * MS, 7 * MS, 700000):
+        for k in range(1, 6):
+            for first in ("host", "client"):
+                p = {"main": [["obs"], ["sleep", 2 * MS], ["obs"], ["sleep", 3 * MS], ["obs"]], "end": "never", "ticker": True, "tasks": []}
+                q = {"main": [["obs"], ["sleep", 1 * MS], ["obs"]], "end": "ok", "ticker": False, "tasks": []}
+                script = [["step"]] * k + [["probe"]]
+                script += [["host", [p]]] if first == "host" else [["client", q]]
+                script += [["step"]] * 3 + [["probe"]]
+                script += [["client", q]] if first == "host" else [["host", [p]]]
+                script += [["step"]] * 4 + [["probe"]]
+                cfg = {"tick_ns": tick, "duration_ns": 1000 * MS, "epoch_ns": F.EPOCHS[(k + 3) % len(F.EPOCHS)],
+                       "random_order": k % 2 == 0, "seed": k}
+                out.append({"cfg": cfg, "script": script, "flavour": "clock-empty-sim"})
+    return out
+
+
 def gen_finished_hosts():
     """Hosts whose main future has returned Ok but left spawned tasks (with clock-reading drop guards)
     behind; they are crashed / bounced some steps later, with and without real time passing in
@@ -282,7 +303,7 @@ class Spec(PropSpec):
     props_file = "C05.v"
     theorems = ["c05_step_advances", "c05_consistent", "c05_monotone", "c05_crash_bounce_neutral", "c05_window",
                 "c05_window_scripted", "c05_timer_exact", "c05_lockstep_reached", "c05_wtick_whole",
-                "c05_tokio_sleep_exact", "c05_timer_exact_scripted", "c05_timer_exact_refuted", "c05_failed_step_refuted", "c05_nonvacuous"]
+                "c05_tokio_sleep_exact", "c05_timer_exact_scripted", "c05_timer_exact_refuted", "c05_failed_step_refuted", "c05_empty_sim_steps", "c05_nonvacuous"]
     coq_targets = ["C05.vo"]
     consts = []
     anchors = ANCHORS
@@ -317,7 +338,7 @@ class Spec(PropSpec):
             # all without real sleeps, a few of the (slow) ones with
             fin = [c for c in fin if not any(e[0] == "wall_sleep" for e in c["script"])] + \
                   ctx.rng.sample([c for c in fin if any(e[0] == "wall_sleep" for e in c["script"])], 6)
-        return fin + ex + cases
+        return gen_empty_steps() + fin + ex + cases
 
     def to_model(self, case, obs):
         return F.to_model(case, obs)
